@@ -41,6 +41,9 @@ for k in (0, 1, 2):
 # runs); m3 child never joined; m4 result stored one cell further; m5 ids addressed with the result stride (VMUL jobs: rewrite does
 # not fire -> undecided; caught by c17.aux.leaf.s1 with the real multiplication); m6 many passes func stride 8; m7 n == 0 not
 # special-cased (aux on an empty range); m8 id stored only when results are given.  All eight are CAUGHT.
+# the public API functions are one-line forwarders to the bodies under contract: checked mechanically (DESIGN 3.5b)
+from units.common_forward import forward_job
+JOBS = list(JOBS) + [forward_job("c17")]
 META = {
  "level": "proof",
  "level_text": "C half: inductive contract proof (--enforce-contract-rec) of the real myth_create_join_various_ex_aux for an arbitrary "
@@ -107,6 +110,5 @@ META = {
    "NOT DECIDED: the TBB-like layer src/mtbb (task_group::run/wait, parallel_for): C++ templates and lambdas are outside CBMC's C++ front "
    "end in this image and rewriting them in C would be a model; in particular the empty/reversed-range recursion of parallel_for_aux "
    "named in the property's why_tests_cant is not decided by this unit",
-   "the one-line forwarders myth_create_join_many_ex / myth_create_join_various_ex (myth_if_native.c) are not in this unit (DESIGN 3.5b)",
  ],
 }
